@@ -788,6 +788,7 @@ impl<Aux> Vm<'_, Aux> {
     /// As such running non-compiler emitted programs is very un-safe
     pub fn run(&mut self, program: &CaoCompiledProgram) -> ExecutionResult<()> {
         self.runtime_data.current_program = program as *const _;
+        let call_depth = self.runtime_data.call_stack.len();
         self.runtime_data
             .call_stack
             .push(CallFrame {
@@ -803,6 +804,10 @@ impl<Aux> Vm<'_, Aux> {
         let mut instr_ptr = 0;
         let result = self._run(&mut instr_ptr);
         self.runtime_data.current_program = std::ptr::null();
+        // release the call frames of this run, otherwise every run costs a frame
+        while self.runtime_data.call_stack.len() > call_depth {
+            self.runtime_data.call_stack.pop();
+        }
         result
     }
 
